@@ -292,85 +292,133 @@ theorem close_unblocks (kd : Kind) (n k : Nat) (t : TState) (hwf : wf kd t)
 
 example : (implRead .standard 8192 0 (TState.init [])).1 = .block := by decide
 
-/-! ### `Transport.read` holds `implLock`; `Transport.Close(true)` does not wait for it -/
+/-! ### `Transport.read` holds `implLock`; `Transport.Write` and `Transport.Close(true)` take no lock -/
 
-/-- with `force` the closer is never made to wait -/
+/-- with `force` the closer is never made to wait, whatever the reader and the writer hold or do -/
 theorem force_closer_never_waits (s : LSt) (h : s.c ≠ .done) (hw : s.c ≠ .waitLock) :
     (closerStep true s).isSome = true := by
-  rcases s with ⟨r, c, l, cl, av⟩
+  rcases s with ⟨r, w, c, l, cl, av, dr⟩
   cases c <;> simp_all [closerStep]
 
 /-- once the descriptor is closed, a read inside `Transport.read` returns and releases the lock -/
 theorem closed_read_returns (s : LSt) (hc : s.closed = true) (hr : s.r = .inRead) :
     ∃ s', readerStep s = some s' ∧ s'.r = .done ∧ s'.lock = .none := by
-  rcases s with ⟨r, c, l, cl, av⟩
+  rcases s with ⟨r, w, c, l, cl, av, dr⟩
   simp only at hc hr
   subst hc hr
-  refine ⟨{ r := .done, c := c, lock := .none, closed := true, avail := av }, ?_, rfl, rfl⟩
+  refine ⟨{ r := .done, w := w, c := c, lock := .none, closed := true, avail := av, drain := dr }, ?_, rfl, rfl⟩
   simp [readerStep]
 
-/-- **force close unblocks, for every schedule**: start with a read blocked inside
-`Transport.read` (holding `implLock`, nothing to return). Under *any* interleaving of reader and
-closer moves in which `Close(true)` got its two moves (enter, close the descriptor), the next reader
-move completes the read; it stays completed afterwards. -/
-theorem force_close_unblocks (sched more : List Bool) (h2 : 2 ≤ nCloser sched) :
-    (runSched true blockedRead (sched ++ true :: more)).r = .done ∧
-    (runSched true blockedRead (sched ++ true :: more)).c = .done := by
-  have hinv0 : finv blockedRead := by simp [finv, blockedRead]
-  have h1 := force_sched blockedRead hinv0 sched
-  have hrs : ∀ (s : LSt) (a b : List Bool), runSched true s (a ++ b) = runSched true (runSched true s a) b := by
-    intro s a b
-    induction a generalizing s with
-    | nil => rfl
-    | cons x xs ih => cases x <;> simp [runSched, ih]
-  rw [hrs]
-  generalize runSched true blockedRead sched = s1 at h1
-  have hcd : s1.c = .done := by
-    have : cprog s1.c = 2 := by rw [h1.2.1]; simp [blockedRead, cprog]; omega
-    cases hc : s1.c <;> simp [hc, cprog] at this
-    rfl
-  have hcl : s1.closed = true := h1.1.2.2 hcd
-  simp only [runSched]
-  have hr1 : ((readerStep s1).getD s1).r = .done := by
-    rcases h1.1.1 with hr | hr
-    · rcases closed_read_returns s1 hcl hr with ⟨s', hs', hd, _⟩
-      rw [hs']; exact hd
-    · rcases s1 with ⟨r, c, l, cl, av⟩
-      simp only at hr; subst hr
-      simp [readerStep]
-  have hinv1 := (finv_reader s1 h1.1)
-  have h3 := force_sched _ hinv1.1 more
-  refine ⟨h3.2.2 hr1, ?_⟩
-  have : cprog (runSched true ((readerStep s1).getD s1) more).c = 2 := by
-    rw [h3.2.1, hinv1.2, hcd]; simp [cprog]
-  cases hc : (runSched true ((readerStep s1).getD s1) more).c <;> simp [hc, cprog] at this
-  rfl
+/-- once the descriptor is closed, a write inside `Transport.Write` returns -/
+theorem closed_write_returns (s : LSt) (hc : s.closed = true) (hw : s.w = .inWrite) :
+    ∃ s', writerStep s = some s' ∧ s'.w = .done := by
+  rcases s with ⟨r, w, c, l, cl, av, dr⟩
+  simp only at hc hw
+  subst hc hw
+  refine ⟨{ r := r, w := .done, c := c, lock := l, closed := true, avail := av, drain := dr }, ?_, rfl⟩
+  simp [writerStep]
 
-example : 2 ≤ nCloser [true, false, true, true, false] := by decide
+/-- after two closer moves of a forced close the closer is done and the descriptor closed, under
+every schedule of the three processes, from every combination of blocked reader / blocked writer -/
+theorem force_close_completes (rb wb : Bool) (sched : List Who) (h2 : 2 ≤ nCloser sched) :
+    (runSched true (blocked rb wb) sched).c = .done ∧ (runSched true (blocked rb wb) sched).closed = true := by
+  have hinv0 : finv (blocked rb wb) := by simp [finv, blocked]
+  have h1 := force_sched (blocked rb wb) hinv0 sched
+  have hcd : (runSched true (blocked rb wb) sched).c = .done := by
+    have : cprog (runSched true (blocked rb wb) sched).c = 2 := by
+      rw [h1.2.1]; simp [blocked, cprog]; omega
+    cases hc : (runSched true (blocked rb wb) sched).c <;> simp [hc, cprog] at this
+    rfl
+  exact ⟨hcd, h1.1.2 hcd⟩
+
+/-- **force close unblocks, for every schedule** (reader blocked and/or writer blocked): start with
+a read blocked inside `Transport.read` (holding `implLock`) when `rb`, and a write blocked inside
+`Transport.Write` (peer not draining) when `wb`. Under *any* interleaving of the three processes in
+which `Close(true)` got its two moves (enter, close the descriptor), the next move of the blocked
+reader completes the read and the next move of the blocked writer completes the write; both stay
+completed, and `Close` itself has returned. -/
+theorem force_close_unblocks (rb wb : Bool) (sched more : List Who) (h2 : 2 ≤ nCloser sched) :
+    (rb = true → (runSched true (blocked rb wb) (sched ++ .reader :: more)).r = .done) ∧
+    (wb = true → (runSched true (blocked rb wb) (sched ++ .writer :: more)).w = .done) ∧
+    (runSched true (blocked rb wb) (sched ++ more)).c = .done := by
+  have hinv0 : finv (blocked rb wb) := by simp [finv, blocked]
+  have h1 := force_sched (blocked rb wb) hinv0 sched
+  have hcl := force_close_completes rb wb sched h2
+  refine ⟨?_, ?_, ?_⟩
+  · intro hrb
+    rw [runSched_append]
+    generalize runSched true (blocked rb wb) sched = s1 at h1 hcl
+    have hrin : rIn s1 := h1.2.2.1 (by simp [rIn, blocked, hrb])
+    simp only [runSched]
+    have hr1 : (move true s1 .reader).r = .done := by
+      rcases hrin with hr | hr
+      · rcases closed_read_returns s1 hcl.2 hr with ⟨s', hs', hd, _⟩
+        simp only [move]; rw [hs']; exact hd
+      · exact (finv_move s1 .reader h1.1).2.2.2.2.1 hr
+    exact (force_sched _ (finv_move s1 .reader h1.1).1 more).2.2.2.2.1 hr1
+  · intro hwb
+    rw [runSched_append]
+    generalize runSched true (blocked rb wb) sched = s1 at h1 hcl
+    have hwin : wIn s1 := h1.2.2.2.1 (by simp [wIn, blocked, hwb])
+    simp only [runSched]
+    have hw1 : (move true s1 .writer).w = .done := by
+      rcases hwin with hw | hw
+      · rcases closed_write_returns s1 hcl.2 hw with ⟨s', hs', hd⟩
+        simp only [move]; rw [hs']; exact hd
+      · exact (finv_move s1 .writer h1.1).2.2.2.2.2 hw
+    exact (force_sched _ (finv_move s1 .writer h1.1).1 more).2.2.2.2.2 hw1
+  · have h3 := force_sched (blocked rb wb) hinv0 (sched ++ more)
+    have : cprog (runSched true (blocked rb wb) (sched ++ more)).c = 2 := by
+      rw [h3.2.1]
+      have : nCloser (sched ++ more) = nCloser sched + nCloser more := by
+        clear h1 hcl h3 h2
+        induction sched with
+        | nil => simp [nCloser]
+        | cons x xs ih => cases x <;> simp [nCloser, ih] <;> omega
+      rw [this]; simp [blocked, cprog]; omega
+    cases hc : (runSched true (blocked rb wb) (sched ++ more)).c <;> simp [hc, cprog] at this
+    rfl
+
+example : 2 ≤ nCloser [.reader, .closer, .writer, .reader, .closer] := by decide
+example : (runSched true (blocked true true) [.closer, .writer, .closer, .writer, .reader]).r = .done := by decide
 
 /-- why `force` exists: without it, while the read stays blocked (no data, peer alive), `Close`
-waits for `implLock` under every schedule — neither call ever completes. -/
-theorem nonforce_close_waits (sched : List Bool) :
-    (runSched false blockedRead sched).r = .inRead ∧
-    (runSched false blockedRead sched).c ≠ .done ∧
-    (runSched false blockedRead sched).closed = false := by
-  have key : ∀ (s : LSt), (s = blockedRead ∨ s = { blockedRead with c := .waitLock }) →
-      ∀ sched, (runSched false s sched = blockedRead ∨
-        runSched false s sched = { blockedRead with c := .waitLock }) := by
+waits for `implLock` under every schedule, whatever the writer does — neither the read nor `Close`
+ever completes. -/
+theorem nonforce_close_waits (wb : Bool) (sched : List Who) :
+    (runSched false (blocked true wb) sched).r = .inRead ∧
+    (runSched false (blocked true wb) sched).c ≠ .done ∧
+    (runSched false (blocked true wb) sched).closed = false := by
+  have key : ∀ (s : LSt), (s.r = .inRead ∧ s.lock = .reader ∧ s.closed = false ∧ s.avail = false ∧
+        (s.c = .idle ∨ s.c = .waitLock)) →
+      ∀ sched, ((runSched false s sched).r = .inRead ∧ (runSched false s sched).closed = false ∧
+        ((runSched false s sched).c = .idle ∨ (runSched false s sched).c = .waitLock)) := by
     intro s hs sched
     induction sched generalizing s with
-    | nil => exact hs
-    | cons b rest ih =>
-      cases b with
-      | true =>
-        simp only [runSched]
-        apply ih
-        rcases hs with hs | hs <;> subst hs <;> simp [readerStep, blockedRead]
-      | false =>
-        simp only [runSched]
-        apply ih
-        rcases hs with hs | hs <;> subst hs <;> simp [closerStep, blockedRead]
-  rcases key blockedRead (Or.inl rfl) sched with h | h <;> rw [h] <;> simp [blockedRead]
+    | nil => exact ⟨hs.1, hs.2.2.1, hs.2.2.2.2⟩
+    | cons p rest ih =>
+      simp only [runSched]
+      apply ih
+      rcases s with ⟨r, w, c, l, cl, av, dr⟩
+      rcases hs with ⟨h1, h2, h3, h4, h5⟩
+      simp only at h1 h2 h3 h4 h5
+      subst h1 h2 h3 h4
+      cases p with
+      | reader => simp [move, readerStep]; exact h5
+      | writer =>
+        cases w <;> simp [move, writerStep] <;> (try split) <;> simp_all
+      | closer =>
+        rcases h5 with h5 | h5 <;> subst h5 <;> simp [move, closerStep]
+  have := key (blocked true wb) (by simp [blocked]) sched
+  refine ⟨this.1, ?_, this.2.1⟩
+  rcases this.2.2 with h | h <;> rw [h] <;> simp
+
+/-- without `force` but with no read in progress, `Close` gets the lock and releases a blocked
+writer: the lock a writer could be blocked under does not exist -/
+theorem nonforce_close_releases_writer :
+    (runSched false (blocked false true) [.closer, .closer, .closer, .writer]).w = .done ∧
+    (runSched false (blocked false true) [.closer, .closer, .closer, .writer]).c = .done := by
+  decide
 
 /-! ## A pipe delivery is a segmentation of the stream (`session_over_pipe`) -/
 
